@@ -245,7 +245,7 @@ func genCall(rt *rapid.T) callCase {
 	// make it fail on purpose now and then (functions whose first string parameter triggers it)
 	if len(c.args) > 0 {
 		switch c.f.Name {
-		case "hello", "join", "onlyErr", "名字", "ns_hello", "withCtx", "nothing":
+		case "hello", "join", "onlyErr", "名字", "привет", "ns_hello", "withCtx", "nothing":
 			si := 0
 			if c.f.Name == "withCtx" {
 				si = 1
